@@ -21,8 +21,11 @@ class _Gate(object):
     self.l = _thread.allocate_lock()
     self.l.acquire()
 
-  def acquire(self):
-    self.l.acquire()
+  def acquire(self, timeout=None):
+    if timeout is None:
+      self.l.acquire()
+      return True
+    return self.l.acquire(True, timeout)
 
   def release(self):
     self.l.release()
@@ -34,6 +37,15 @@ class Deadlock(Exception):
 
 class StepLimit(Exception):
   pass
+
+
+class Blocked(Exception):
+  """a managed thread did not come back to the scheduler: it blocks on something the scheduler does not
+  manage (a real lock, a blocking queue operation, ...) that no other thread will ever release"""
+  pass
+
+
+STEP_TIMEOUT = 15.0
 
 
 class _Kill(BaseException):
@@ -228,19 +240,27 @@ class Scheduler(object):
         if step > self.max_steps:
           raise StepLimit('more than %d scheduling steps' % self.max_steps)
         t.gate.release()
-        self.ctl.acquire()
+        if not self.ctl.acquire(STEP_TIMEOUT):
+          self.blocked = t.name
+          raise Blocked('thread %s did not reach a scheduling point within %.0f s after %s' % (
+            t.name, STEP_TIMEOUT, self.last_line.get(t.name)))
     finally:
       self._kill()
     return self.log
 
   def _kill(self):
     self.killing = True
+    blocked = getattr(self, 'blocked', None)
     for t in self.threads:
+      if t.name == blocked:
+        continue            # abandoned (daemon thread stuck in a blocking call)
       while not t.done:
         t.gate.release()
-        self.ctl.acquire()
+        if not self.ctl.acquire(STEP_TIMEOUT):
+          break
     for t in self.threads:
-      t.thread.join(timeout=5)
+      if t.name != blocked:
+        t.thread.join(timeout=5)
 
 
 # -------------------------------------------------------------------------------------
